@@ -1,7 +1,11 @@
 (* RunC01.v -- runner for C01 (save then load).
    (save <fmt> <doc>)  ->  <saveres>            fmt ::= table | stream
-   <saveres> ::= (saved xBYTES <doc-after-save>) | (invalid-mark xBYTES) | (save-panic xBYTES) *)
-From LV Require Import Base.Bytes Base.Sx Model.Obj Model.Writer Model.Save.
+   (rt <fmt> <doc>)    ->  (rt <saveres> <loadres> <saveres2> <loadres2>)   (later parts only while ok;
+                           the second cycle uses the format the loader recorded)
+   (load xBYTES)       ->  <loadres>
+   <saveres> ::= (saved xBYTES <doc-after-save>) | (invalid-mark xBYTES) | (save-panic xBYTES)
+   <loadres> ::= (loaded <doc> table|stream) | (err <class>) | (load-panic) | (out) | (unmodelled) *)
+From LV Require Import Base.Bytes Base.Sx Model.Obj Model.Writer Model.Save Model.Xref Model.Loader.
 
 Definition saveres_to_sx (r : save_out) : sx :=
   match so_status r with
@@ -13,13 +17,62 @@ Definition saveres_to_sx (r : save_out) : sx :=
 Definition fmt_of_sx (x : sx) : option xref_type :=
   if is_id x "table" then Some XTable else if is_id x "stream" then Some XStream else None.
 
+Definition lerr_to_sx (e : lerr) : sx :=
+  match e with
+  | LeHeader => sx_id "parse-InvalidFileHeader"
+  | LeXrefStart => sx_id "xref-Start"
+  | LePrevStart => sx_id "xref-PrevStart"
+  | LeStreamStart => sx_id "xref-StreamStart"
+  | LeTrailer => sx_id "parse-InvalidTrailer"
+  | LeInvalidXref => sx_id "parse-InvalidXref"
+  | LeIo => sx_id "other-IO"
+  end.
+
+Definition loadres_to_sx (r : lres) : sx :=
+  match r with
+  | LOk d t => SL [sx_id "loaded"; doc_to_sx d; match t with XTTable => sx_id "table" | XTStream => sx_id "stream" end]
+  | LErr e => SL [sx_id "err"; lerr_to_sx e]
+  | LPanic => SL [sx_id "load-panic"]
+  | LOut => SL [sx_id "out"]
+  | LUnmodelled => SL [sx_id "unmodelled"]
+  end.
+
+Definition fmt_of_xtype (t : xtype) : xref_type := match t with XTTable => XTable | XTStream => XStream end.
+
+Definition run_rt (xt : xref_type) (d : doc) : sx :=
+  let s1 := save xt d in
+  SL (sx_id "rt" :: saveres_to_sx s1 ::
+      match so_status s1 with
+      | SaveOk =>
+        let l1 := load (so_bytes s1) in
+        loadres_to_sx l1 ::
+        match l1 with
+        | LOk d1 t1 =>
+          let s2 := save (fmt_of_xtype t1) d1 in
+          saveres_to_sx s2 ::
+          match so_status s2 with
+          | SaveOk => [loadres_to_sx (load (so_bytes s2))]
+          | _ => []
+          end
+        | _ => []
+        end
+      | _ => []
+      end).
+
 Definition run (x : sx) : sx :=
   match x with
   | SL [t; f; dx] =>
-    if is_id t "save" then
+    if is_id t "save" || is_id t "rt" then
       match fmt_of_sx f, doc_of_sx dx with
-      | Some xt, Some d => saveres_to_sx (save xt d)
+      | Some xt, Some d => if is_id t "save" then saveres_to_sx (save xt d) else run_rt xt d
       | _, _ => sx_id "badcase"
+      end
+    else sx_id "badcase"
+  | SL [t; b] =>
+    if is_id t "load" then
+      match as_bytes b with
+      | Some b => loadres_to_sx (load b)
+      | None => sx_id "badcase"
       end
     else sx_id "badcase"
   | _ => sx_id "badcase"
